@@ -59,10 +59,10 @@ def gen_op(rng, kind, p):
     return [kind, {'study': ss(), 'state': rng.choice(['ACTIVE', 'ACTIVE', 'INACTIVE', 'COMPLETED', 'UNSPEC'])}]
   if kind == 'CreateTrial':
     return [kind, {'study': ss(), 'x': rng.randrange(100),
-                   'tkind': rng.choice(['plain', 'plain', 'succeeded', 'infeasible', 'active']),
+                   'tkind': rng.choice(['plain', 'plain', 'succeeded', 'infeasible', 'active', 'rich']),
                    'v': rng.randrange(6), 'w': rng.randrange(6)}]
   if kind == 'SuggestTrials':
-    return [kind, {'study': ss(), 'n': rng.choice([1, 1, 2, 2, 3, 4, 5]),
+    return [kind, {'study': ss(), 'n': rng.choice([1, 1, 2, 2, 3, 4, 5, 5, 8, 12]),
                    'worker': rng.randrange(p.get('workers', 2))}]
   if kind in ('GetTrial', 'StopTrial', 'DeleteTrial', 'CheckES'):
     return [kind, {'study': ss(), 'trial': trial_sel(rng)}]
